@@ -42,7 +42,7 @@ type c19plan struct{ imgs, lattice, big, extra, dist int }
 func c19Plan(tier string) c19plan {
 	p := c19plan{imgs: 1200, lattice: 71, big: 11, extra: 1, dist: 20}
 	if tier == "thorough" {
-		p.imgs, p.dist = 30000, 400
+		p.imgs, p.dist = 90000, 1200
 	}
 	return p
 }
